@@ -370,7 +370,9 @@ pub fn run(ctx: &Ctx) -> PropReport {
     rep.push(run_sharded(ctx, "item-api", ctx.tier.pick(100_000, 1_000_000), move || case_strategy(d, sz), judge_api, |c| {
         json!({"instruction": "api", "t": c.t.to_json(), "u": c.u.to_json(), "w": c.w.to_json(), "idx": c.idx, "text": format!("t={} u={} w={}", c.t.render(), c.u.render(), c.w.render())})
     }));
-    rep.push(crate::props::incontext::run(ctx, ctx.tier.pick(40_000, 600_000)));
+    for r in crate::props::incontext::run_all(ctx, ctx.tier.pick(40_000, 600_000)) {
+        rep.push(r);
+    }
     rep
 }
 
